@@ -482,7 +482,9 @@ def same_float(pattern, x, size):
 
 
 def run(chk):
-    chk.rule = ("per artefact (scapy, wireshark, fibex, csv x {msb,msbreverse,lsb} x {',',';'}, canard): seeded matrices from matgen "
+    chk.rule = ("per artefact (scapy, wireshark, fibex, csv x {msb,msbreverse,lsb} x {',',';'}, canard x complete CLI option vectors "
+                "(xls/json Motorola notation, jsonNativeTypes, jsonExportAll, xlsValuesInSeperateLines); every fourth matrix of the other artefacts is "
+                "written again under a vector of options that belong to other outputs and must come out byte-identical): seeded matrices from matgen "
                 "(1..6 frames, lengths 1..64, standard and extended ids with unique id numbers, Intel/Motorola/mixed, signed/unsigned/"
                 "float32/64, factors/offsets of up to 4 (csv: 6) and, in a separate stream, 9 significant digits, simple multiplexing in about "
                 "a third of the frames); every signal is one case: recorded numbers vs the matrix, tool-convention positions vs "
@@ -646,6 +648,37 @@ def run(chk):
                           dict(excerpt=(a[0] if isinstance(a[0], str) else a[0].decode("utf8", "replace"))[:600]))
             return None
 
+    # ---- the writer's notation options as a whole: canconvert hands EVERY writer the complete option vector (each option at its
+    # CLI default or at what the user chose), so every artefact is also produced under vectors that set options documented for
+    # another output mode.  The property is the same under every vector: the artefact's own convention is fixed by the target tool.
+    OPTION_SPACE = {"xlsMotorolaBitFormat": ["msbreverse", "msb", "lsb"], "jsonMotorolaBitFormat": ["lsb", "msb", "msbreverse"],
+                    "jsonNativeTypes": [False, True], "jsonExportAll": [False, True], "xlsValuesInSeperateLines": [False, True]}
+
+    def option_vector(exclude=()):
+        """a complete option vector; at least one option away from its default (first value)"""
+        names = [n for n in OPTION_SPACE if n not in exclude]
+        while True:
+            v = {n: rng.choice(OPTION_SPACE[n]) for n in names}
+            if any(v[n] != OPTION_SPACE[n][0] for n in names):
+                return v
+
+    def foreign_options_probe(art, db, base_data, own, exclude):
+        """options that belong to another output mode must not change this artefact: byte comparison with the dump made without them"""
+        vec = option_vector(exclude)
+        other = writer(art, db, **dict(own, **vec))
+        chk.count("options:%s:foreign-vector" % art)
+        for n, val in vec.items():
+            if val != OPTION_SPACE[n][0]:
+                chk.count("options:%s=%s" % (n, val))
+        chk.case((art, "foreign", tuple(sorted(vec.items())), len(base_data)), True)
+        if other is not None and other != base_data:
+            a, b = base_data.decode("utf8", "replace").split("\n"), other.decode("utf8", "replace").split("\n")
+            first = next((i for i, (x, y) in enumerate(zip(a, b)) if x != y), min(len(a), len(b)))
+            f0 = db.frames[0]
+            chk.violation("%s-foreign-option" % art, "an option documented for another output changes this artefact",
+                          dict(options=vec, own_options=own, frames=[f.name for f in db.frames], first_frame=describe(f0, f0.signals[0]) if f0.signals else None),
+                          a[first:first + 2], b[first:first + 2])
+
     # ============================================================ scapy
     for k in range(N):
         tie_on[0] = k < TIE_N
@@ -653,6 +686,8 @@ def run(chk):
         data = writer("scapy", db)
         if data is None:
             continue
+        if k % 4 == 1:
+            foreign_options_probe("scapy", db, data, {}, ())
         art = parsed("scapy", parse_scapy, data.decode("utf8"))
         if art is None:
             continue
@@ -719,6 +754,8 @@ def run(chk):
         data = writer("wireshark", db)
         if data is None:
             continue
+        if k % 4 == 1:
+            foreign_options_probe("wireshark", db, data, {}, ())
         art = parsed("wireshark", parse_lua, data.decode("utf8"))
         if art is None:
             continue
@@ -798,6 +835,8 @@ def run(chk):
         data = writer("fibex", db)
         if data is None:
             continue
+        if k % 4 == 1:
+            foreign_options_probe("fibex", db, data, {}, ())
         art = parsed("fibex", parse_fibex, data)
         if art is None:
             continue
@@ -901,6 +940,8 @@ def run(chk):
             data = writer("csv", db, **kw)
             if data is None:
                 continue
+            if k % 4 == 1:
+                foreign_options_probe("csv", db, data, kw, ("xlsMotorolaBitFormat", "xlsValuesInSeperateLines"))
             art = parsed("csv", parse_csv, data, delim)
             if art is None:
                 continue
@@ -955,7 +996,14 @@ def run(chk):
     for k in range(N):
         tie_on[0] = k < TIE_N
         db = matgen.gen_matrix(rng, C, **features("canard", k))
-        data = writer("canard", db, jsonExportCanard=True)
+        # two of three matrices: exported under a complete option vector (CANard has one fixed convention, whatever the other options say)
+        copts = option_vector() if k % 3 else {}
+        under = "-under-options" if copts else ""
+        chk.count("options:canard:%s" % ("complete-vector" if copts else "own-option-only"))
+        for n, val in copts.items():
+            if val != OPTION_SPACE[n][0]:
+                chk.count("options:%s=%s" % (n, val))
+        data = writer("canard", db, jsonExportCanard=True, **copts)
         if data is None:
             continue
         art = parsed("canard", parse_canard, data)
@@ -990,14 +1038,16 @@ def run(chk):
                 crossing_motorola = (not s.is_little_endian) and sp[0] // 8 != sp[-1] // 8
                 nt = False
                 if r["key"] != flip(sp[-1]):
-                    chk.violation("canard-key", "the key is not the LSB0 number of the signal's least significant bit", describe(fr, s), flip(sp[-1]), r["key"])
+                    chk.violation("canard-key" + under, "the key is not the LSB0 number of the signal's least significant bit",
+                                  dict(describe(fr, s), options=copts), flip(sp[-1]), r["key"])
                 elif crossing_motorola:
                     chk.count("canard:outside-format(Motorola signal crossing a byte boundary)")
                 elif pos != sp:
-                    chk.violation("canard-key", "key read with CANard's convention does not select the signal's bits", describe(fr, s), sp, pos)
+                    chk.violation("canard-key" + under, "key read with CANard's convention does not select the signal's bits",
+                                  dict(describe(fr, s), options=copts), sp, pos)
                 elif not s.is_float and not s.is_signed:
                     nt = check_value("canard", fr, s, lambda p, r=r: canard_value(p, r["key"], r["size"]), "value read with CANard's convention differs from Frame.decode")
-                register("canard", "", fr, s, nt)
+                register("canard", repr(sorted(copts.items())), fr, s, nt)
                 add(1905, [sig_group(s)], [[r["key"], r["size"]]], dict(canard=describe(fr, s)))
                 add(1915, [[r["key"], r["size"]]], [pos], dict(canard_positions=(r["key"], r["size"])))
         if k < 1:
